@@ -106,7 +106,11 @@ def _sel_entry(kind, direction):
             p["full_fraction"] = 0.5
         return sel.make(kind, direction, **p)
 
-    methods = [("get_support", lambda e, a: e.get_support(indices=True, ordered=True)), ("score", lambda e, a: np.array(e.score(a["X"], a.get("y"))))]
+    methods = [("selected_idx_", lambda e, a: np.array(e.selected_idx_, copy=True)), ("get_support-unordered", lambda e, a: e.get_support(indices=True)),
+               ("get_support", lambda e, a: e.get_support(indices=True, ordered=True)), ("score", lambda e, a: np.array(e.score(a["X"], a.get("y")), copy=True))]
+    if "FPS" in kind:
+        methods.append(("get_select_distance", lambda e, a: np.array(e.get_select_distance(), copy=True)))
+        methods.append(("get_distance", lambda e, a: np.array(e.get_distance(), copy=True)))
     if direction == "feature":
         methods.append(("transform", lambda e, a: e.transform(a["X"])))
         methods.append(("fit_transform", lambda e, a: make(a).fit(a["X"], a.get("y")).transform(a["X"]) if True else None))
@@ -671,6 +675,16 @@ def check(case):
                 ft, ok = step("fit_transform", lambda: e["make"](a).fit_transform(a["X"], a.get("y")))
                 if ok and not _close(_plain(ft), outs["transform"], 1e-9):
                     r.fail("fit_transform-differs-from-fit-then-transform", name)
+            # the ORDER of public calls on a fitted estimator must not matter: a fresh fit, methods in reverse order
+            est_r, ok = step("estimator for reversed call order", lambda: e["fit"](e["make"](a), a))
+            if ok:
+                for mname, fn in reversed(e["methods"]):
+                    o, ok2 = step(mname + " (reversed order)", lambda fn=fn: fn(est_r, a))
+                    if not ok2:
+                        break
+                    if mname != "sample" and not _close(outs[mname], _plain(o), 1e-9):
+                        r.fail("result-depends-on-the-order-of-public-calls", "%s.%s differs when the methods are called in reverse order" % (name, mname))
+                        break
             # a second estimator with the same inputs gives the same result
             est2, ok = step("second estimator", lambda: e["fit"](e["make"](a), a))
             if ok:
